@@ -349,6 +349,20 @@ func c09GenCase(seed int64, idx int) packedCase {
 		if len(rts) == 1 && rng.Bool() {
 			lit = "\tpair := func(a int) (int, int) {\n\t\treturn a, a + 1\n\t}\n\tq1, q2 := pair(1)\n\t_, _ = q1, q2\n"
 		}
+		fwdArgs := func() string {
+			var as []string
+			for i := range sig.params {
+				as = append(as, fmt.Sprintf("p%d", i))
+			}
+			if sig.variadic != nil {
+				as = append(as, "va...")
+			}
+			return strings.Join(as, ", ")
+		}
+		if rng.Chance(1, 4) {
+			// the callee as the post statement of a loop ahead of the forwarding return: its results are dropped
+			lit += fmt.Sprintf("\tfor q := 0; q < 2; %s(%s) {\n\t\tq++\n\t}\n", callee, fwdArgs())
+		}
 		fmt.Fprintf(&sb, "func %sw(%s)%s {\n%s\treturn %s(%s)\n}\n\n", id, strings.Join(wps, ", "), rt, lit, callee, func() string {
 			var as []string
 			for i := range sig.params {
